@@ -29,6 +29,7 @@ def main(repo, outdir):
                 "max_pd": pt.max_pd, "npars": pt.npars, "nvalues": pt.nvalues,
                 "nmagnetic": pt.nmagnetic,
                 "have_Fq": bool(info.have_Fq),
+                "single": bool(info.single),
                 "category": info.category,
                 "kernel_parameters": [p.id for p in pt.kernel_parameters],
                 "call_parameters": [p.id for p in pt.call_parameters],
